@@ -18,6 +18,8 @@ The log (World.events) is in execution order (one thread runs at a time):
 import logging
 import socket
 
+from paramiko.ssh_exception import SSHException
+
 from harness import linesched as ls
 from harness.drivers import chan as dchan
 
@@ -68,12 +70,20 @@ class PairTransport(dchan.FakeTransport):
         from paramiko.transport import ChannelMap
         self.world, self.side = world, side
         self._channels = ChannelMap()
+        self.fail_data = set()      # ordinals (1-based) of DATA/EXT hand-overs that raise instead (re-key timed out)
+        self.n_data = 0
 
     def _send_user_message(self, m):
         S, me = _mark("emit")
         if S is not None and me is not None:
             S.switch_point("emit")
         rec = dchan.parse_out(m)
+        if rec["t"] in ("DATA", "EXT") and self.active:
+            self.n_data += 1
+            if self.n_data in self.fail_data:
+                from paramiko.ssh_exception import SSHException
+                self.world.log("failed", side=self.side, t=rec["t"], n=rec.get("n", 0), code=rec.get("code", 0))
+                raise SSHException("Key-exchange timed out waiting for key negotiation")
         if not self.active:            # Transport._send_user_message: "Dropping user packet because connection is dead"
             self.world.log("emit", side=self.side, t=rec["t"], n=rec.get("n", 0), code=rec.get("code", 0), dropped=True)
             return
@@ -112,6 +122,7 @@ class World:
             tm = par["tmo"][X]
             ch.settimeout({"block": None, "timed": 0.5, "nonblock": 0.0}[tm])
             self._tap(ch, X)
+            ft.fail_data = set(par.get("fail", {}).get(X, ()))
             self.ft[X], self.ch[X] = ft, ch
 
     def _tap(self, ch, X):
@@ -187,7 +198,7 @@ class World:
                 ch.shutdown(2)
             else:
                 raise ValueError(kind)
-        except (socket.timeout, socket.error) as e:
+        except (socket.timeout, socket.error, SSHException) as e:
             out = "raised"
             self.log("ret", side=X, op=kind, out=out, exc=type(e).__name__)
             return
@@ -276,6 +287,13 @@ def scenario(prog):
             return {"events": w.events, "final": w.snapshot(ex)}
         return after
     return sc
+
+
+def holdback():
+    """does the tree under test hold EOF/CLOSE back behind data in flight (Channel._send_done)?  Selects the structure of
+    the model whose behaviours are replayed step by step (spec -> code); the invariants judged are the same either way"""
+    from paramiko.channel import Channel
+    return hasattr(Channel, "_send_done")
 
 
 def modules():
@@ -409,6 +427,8 @@ def tla_trace(prog, verdict):
     other = {"A": "B", "B": "A"}
     evs = []
     for e in verdict["events"]:
+        if e["ev"] == "failed":
+            continue
         r = dict(EV_DEFAULTS)
         r.update(e)
         evs.append(r)
